@@ -359,8 +359,11 @@ Definition scalar_kind (k : ident) : pkind :=
 (* the fixed reference targets of a generated compile unit (package foo.v1) and the well-known types *)
 Definition ref_kind (pkg path : qname) : pkind :=
   let is p q := qname_eqb pkg (map bs p) && qname_eqb path (map bs q) in
-  if is ["foo"; "v1"]%string ["Bar"]%string || is ["foo"; "v1"]%string ["Baz"]%string then KdMsgObject
-  else if is ["foo"; "v1"]%string ["Choice"]%string || is ["foo"; "v1"]%string ["Pick"]%string then KdMsgOneof
+  (* whether a message is an object or a oneof is not in the field's descriptor: by name *)
+  if is ["foo"; "v1"]%string ["Bar"]%string then KdMsgObject (bs "Bar")
+  else if is ["foo"; "v1"]%string ["Baz"]%string then KdMsgObject (bs "Baz")
+  else if is ["foo"; "v1"]%string ["Choice"]%string then KdMsgOneof (bs "Choice")
+  else if is ["foo"; "v1"]%string ["Pick"]%string then KdMsgOneof (bs "Pick")
   else if is ["foo"; "v1"]%string ["Color"]%string then KdEnum
   else if is ["google"; "protobuf"]%string ["Timestamp"]%string then KdTimestamp
   else if is ["j5"; "types"; "date"; "v1"]%string ["Date"]%string then KdDate
